@@ -27,7 +27,8 @@ LEVEL_TEXT = ('Every monitored call must leave the deep encoding of its state ar
               'then symmetrically; returned observation containers are scrambled and the state must not change; the same '
               'deterministic question (step, observation, reward, termination, rays, shortest-path reward with >10 layouts to '
               'overflow its LRU cache) asked again after arbitrary other calls must give an equal answer, also equal to the answer '
-              'after cache_clear(); fast_copy of a state must be ==, hash-equal, deep-encoding-equal and independent.')
+              'after cache_clear(); fast_copy of a state must be ==, hash-equal, deep-encoding-equal and independent.'
+              ' Also: states reached through the dynamics vs freshly rebuilt equal states, objects carrying arrays / unpicklable data, observation questions in shuffled orders, the same step before and after other environments are declared, shortest-path and ray cache histories with sibling and multi-target layouts.')
 LEVEL_NOTE = ('Trusted: enc.es deep encoding and the scrambler. Observations sharing (immutable-use) cell objects with their state is '
               'allowed; only containers are required to be fresh.')
 SHARDS = {'quick': 4, 'thorough': 16}
